@@ -7,6 +7,7 @@ op   = ["getref", pt, w] | ["get", pt] | ["append", path, c, v] | ["setitem", pa
      | ["getsp", path, c, spk] | ["getrefsp", path, c, spk, w] | ["getd", pt, dflt]
      | ["appendfib", path, c, tree] | ["extend", path, tree] | ["setitemfib", path, pos, tree]
      | ["assignfib", path, tree]      (fiber-valued mutators; the argument fiber is a tree literal)
+     | ["setitemcf", path, pos, c, tree]   (f[pos] = CoordPayload(c, <fiber tree>) on an interior fiber)
 w    = ["none"] | ["assign", v] | ["add", v];  spk = None or a seed k (start_pos = k mod len)
 observation = [state0, [[outcome, state] per op]]; state = [tree, rank paths, owners_ok]
 """
@@ -66,6 +67,8 @@ def op_coq(o):
         return "(OSetItemFib %s %s %s)" % (L.zlist(o[1]), L.z(o[2]), L.tree(o[3]))
     if k == "assignfib":
         return "(OAssignFib %s %s)" % (L.zlist(o[1]), L.tree(o[2]))
+    if k == "setitemcf":
+        return "(OSetItemCF %s %s %s %s)" % (L.zlist(o[1]), L.z(o[2]), L.z(o[3]), L.tree(o[4]))
     raise ValueError(k)
 
 
@@ -83,6 +86,19 @@ def all_paths(tree, n, pre=()):
         for c, s in tree:
             out += all_paths(s, n, pre + (c,))
     return out
+
+
+def coords_at(tree, path):
+    """coordinates of the fiber of the literal addressed by `path` (None if there is none)"""
+    t = tree
+    for c in path:
+        if isinstance(t, int):
+            return None
+        sub = [s for c0, s in t if c0 == c]
+        if not sub:
+            return None
+        t = sub[0]
+    return None if isinstance(t, int) else [c for c, _ in t]
 
 
 def gen_w(rng, d):
@@ -175,6 +191,37 @@ def gen_case(rng, kinds, maxlen=10, depths=(1, 2, 2, 3)):
                     paths.append(path + [c])
             else:
                 ops.append([k, path, rng.choice([0, 0, 1, 1, 2, 3, -1, -1, -2, -4, 6]), t])
+        elif k == "setitemcf":
+            # f[pos] = CoordPayload(c, fiber) on an interior fiber: both the coordinate and the sub-fiber are
+            # replaced; the coordinate is aimed at the neighbours of the position (as the initial tree has
+            # them - the history may have moved them) so that collisions / out-of-order coordinates, which
+            # must be refused before anything is released, are as frequent as accepted ones
+            if len(path) + 1 >= n and rng.random() < 0.9:
+                path = path[:max(0, n - 2)]
+            dep = n - len(path) - 1
+            if rng.random() < 0.06:
+                dep = max(0, dep + rng.choice([-1, 1]))
+            t = gen_arg(rng, dep, d)
+            cs = coords_at(tree, path) or []
+            pos = rng.choice([0, 0, 1, 1, 2, 3, -1, -1, -2, -4, 6])
+            if cs and rng.random() < 0.6:
+                pos = rng.randint(-len(cs), len(cs) - 1)        # mostly an existing position
+            i = pos + len(cs) if pos < 0 else pos
+            r = rng.random()
+            if 0 <= i < len(cs) and r < 0.8:
+                left = cs[i - 1] if i > 0 else None
+                right = cs[i + 1] if i + 1 < len(cs) else None
+                cands = [cs[i], cs[i] + 1, cs[i] - 1]                       # the current one / next to it
+                if left is not None:
+                    cands += [left, left, left - 1, left + 1]                # collides with / below the left neighbour
+                if right is not None:
+                    cands += [right, right, right + 1, right - 1]            # collides with / above the right neighbour
+                c = rng.choice(cands)
+            else:
+                c = rng.randint(0, 12)
+            ops.append([k, path, pos, c, t])
+            if len(path) + 1 < n and path + [c] not in paths:
+                paths.append(path + [c])
         elif k in ("extend", "assignfib"):
             dep = n - len(path)
             if rng.random() < 0.06:
@@ -224,7 +271,8 @@ def build_arg(t, depth, d):
 
 ALL_KINDS = ["getref", "getref", "get", "getd", "append", "setitem", "setitem", "clear", "updcoords", "updtbl", "updtbl", "updpay",
              "shaperef", "getpos", "getposref", "getsp", "getrefsp",
-             "appendfib", "appendfib", "extend", "extend", "setitemfib", "setitemfib", "assignfib", "assignfib"]
+             "appendfib", "appendfib", "extend", "extend", "setitemfib", "setitemfib", "assignfib", "assignfib",
+             "setitemcf", "setitemcf"]
 ACCESS_KINDS = ["getref", "getref", "getref", "get", "get", "getd", "getd", "getpos", "getposref", "getsp", "getrefsp"]
 
 
@@ -249,9 +297,12 @@ def shrinks(case):
 
 def describe(case):
     kinds = sorted(set(o[0] for o in case["ops"]))
-    return {"depth": case["n"], "len": len(case["ops"]),
-            "explicit_default": U.has_explicit_default(case["tree"], case["d"]),
-            "empty_subfiber": U.has_empty_sub(case["tree"], case["d"])}
+    out = {"depth": case["n"], "len": len(case["ops"]),
+           "explicit_default": U.has_explicit_default(case["tree"], case["d"]),
+           "empty_subfiber": U.has_empty_sub(case["tree"], case["d"])}
+    for k in kinds:                                   # operation histogram: histories containing each kind
+        out["op_" + k] = "histories"
+    return out
 
 
 def nontrivial(case):
@@ -386,6 +437,13 @@ def do_op(T, n, o, d=0):
             f.append(o[2], build_arg(t, dep, d))
         else:
             f[o[2]] = build_arg(t, dep, d)
+        return [0, []]
+    if k == "setitemcf":
+        t = o[4]
+        dep = n - len(path) - 1
+        if not (len(path) + 1 < n and plain_wf(dep, t)) or f is None:
+            return [2]
+        f[o[2]] = CoordPayload(o[3], build_arg(t, dep, d))
         return [0, []]
     if k in ("extend", "assignfib"):
         t = o[2]
